@@ -486,7 +486,7 @@ func (p *Payload) String() string {
 	s := fmt.Sprintf("%s{h=%d v=%d i=%d", p.T, p.H, p.V, p.Idx)
 	switch b := p.Body.(type) {
 	case *PrepReq:
-		s += fmt.Sprintf(" ts=%d ntx=%d", b.TS, len(b.Hashes))
+		s += fmt.Sprintf(" ts=%d tx=%v", b.TS, b.Hashes)
 	case *PrepResp:
 		s += " prep=" + b.Prep.String()
 	case *ChView:
